@@ -47,6 +47,29 @@ macro_rules! width {
                 o(Fixed::<$U, $D>::from_inner(u(0)).checked_mul(&Fixed::<$U, $D>::from_inner(u(1))).map(|f| f.into_inner()))
             }
             "Fixed.checked_pow" => o(Fixed::<$U, $D>::from_inner(u(0)).checked_pow(&Fixed::<$U, $D>::from_inner(u(1))).map(|f| f.into_inner())),
+            "apply_fees" | "fee" | "base_position_fees" => {
+                use gmsol_model::params::fee::FeeParams;
+                use gmsol_model::pool::delta::BalanceChange;
+                use gmsol_model::price::Price;
+                let p = FeeParams::<$U>::builder()
+                    .positive_impact_fee_factor(u(0))
+                    .negative_impact_fee_factor(u(1))
+                    .fee_receiver_factor(u(2))
+                    .build();
+                let p = if $a[3] == "none" { p } else { p.with_discount_factor(u(3)) };
+                let bc = match $a[4].as_str() { "improved" => BalanceChange::Improved, "worsened" => BalanceChange::Worsened, _ => BalanceChange::Unchanged };
+                match $name {
+                    "fee" => o(p.fee::<$D>(bc, &u(5))),
+                    "apply_fees" => match p.apply_fees::<$D>(bc, &u(5)) {
+                        Some((net, f)) => format!("Some({net},{},{})", f.fee_amount_for_pool(), f.fee_amount_for_receiver()),
+                        None => "None".into(),
+                    },
+                    _ => match p.base_position_fees::<$D>(&Price { min: u(6), max: u(7) }, &u(5), bc) {
+                        Ok(f) => format!("Ok({},{},{})", f.order_fees().fee_value(), f.order_fees().fee_amounts().fee_amount_for_pool(), f.order_fees().fee_amounts().fee_amount_for_receiver()),
+                        Err(_) => "Err".into(),
+                    },
+                }
+            }
             _ => return None,
         })
     }};
